@@ -150,6 +150,12 @@ def _one_run(prop, seed, index, cfg, t0):
         }
 
 
+def run_chunk(task):
+    """task = (prop, seed, first_index, count) -> list of summaries"""
+    prop, seed, first, count = task
+    return [one_run((prop, seed, i)) for i in range(first, first + count)]
+
+
 def finalise_spec(spec, result):
     """The replayable form of a run: the spec plus the recorded schedule."""
     s = dict(spec)
